@@ -220,6 +220,10 @@ func c15(r *core.Run) {
 		for _, ed := range dominatingEdges(ret) {
 			conds = append(conds, describeCond(ed))
 		}
+		if !st.Only(stYes) && onNoReplySubjectEdge(ret) {
+			r.ExemptObl("R1", core.FuncName(hq), "return:"+returnDesc(ret, conds), p.InstrPos(ret), "no reply subject: nothing to answer (the message is dropped before it becomes a request, C07.P2)")
+			continue
+		}
 		r.Check(st.Only(stYes), "R1", core.FuncName(hq), "return:"+returnDesc(ret, conds), p.InstrPos(ret), "state=Yes on every path", "state="+stateStr(st)+": a query request can be left without a response on this path")
 	}
 
@@ -287,8 +291,17 @@ func c15(r *core.Run) {
 				}
 				nRes++
 				ld, isLd := st.Val.(*ssa.UnOp)
-				if isLd && core.Strip(ld.X) == ssa.Value(recv) {
-					continue // r: *r
+				if isLd {
+					whole := true // r: *r, also when the literal is built in a helper handed the receiver
+					srcs := paramArgs(p, ld.X, 0)
+					for _, sv := range srcs {
+						if core.Strip(sv) != ssa.Value(recv) {
+							whole = false
+						}
+					}
+					if whole && len(srcs) > 0 {
+						continue
+					}
 				}
 				// a literal: its group member must be the receiver's
 				okGroup := false
